@@ -1,0 +1,180 @@
+//! Verification hook (family `gs_node`), compiled only with `--cfg libp2p_verif`.
+//!
+//! Child module of `behaviour` so that it can see the private fields of [`Behaviour`]
+//! (`mesh`, `fanout`, `backoffs`, `explicit_peers`, `connected_peers`) and the private
+//! `heartbeat()`. It contains thin `pub` wrappers only; everything that runs is production code.
+//!
+//! * `verif_heartbeat()` — the heartbeat as a callable action.
+//! * read access to mesh / fanout / backoffs / explicit peers / per-peer details.
+//! * `verif_drain_wire(peer)` — pops the peer's send queue exactly as the connection handler does
+//!   (`Queue::poll_pop`: priority, control, non-priority) and encodes every `RpcOut` through
+//!   `RpcOut::into_protobuf` + the real `GossipsubCodec` encoder (the handler's path), returning
+//!   length-prefixed wire frames.
+//! * `verif_decode(config, bytes)` — the real `GossipsubCodec` decoder (what the handler's
+//!   inbound `Framed` does): wire bytes -> `HandlerEvent`s.
+
+use std::{
+    collections::BTreeMap,
+    task::{Context, Poll},
+};
+
+use asynchronous_codec::{Decoder, Encoder};
+use bytes::BytesMut;
+use libp2p_identity::PeerId;
+use web_time::Instant;
+
+use super::Behaviour;
+pub use crate::handler::{Handler, HandlerEvent, HandlerIn};
+pub use crate::types::PeerKind;
+use crate::{
+    config::Config, protocol::GossipsubCodec, subscription_filter::TopicSubscriptionFilter,
+    topic::TopicHash, transform::DataTransform,
+};
+
+/// Plain-data copy of `PeerDetails` (without the queue).
+#[derive(Debug, Clone, PartialEq, Eq)]
+pub struct PeerView {
+    pub kind: &'static str,
+    pub is_gossipsub: bool,
+    pub is_floodsub: bool,
+    pub outbound: bool,
+    pub connections: usize,
+    pub topics: Vec<String>,
+}
+
+fn codec(config: &Config) -> GossipsubCodec {
+    let p = config.protocol_config();
+    // identical to `ProtocolConfig::upgrade_inbound/outbound`
+    GossipsubCodec::new(
+        p.default_max_transmit_size,
+        p.validation_mode,
+        p.max_transmit_sizes,
+        p.max_publish_messages,
+        p.max_control_message_size,
+    )
+}
+
+/// Decode wire bytes (one or more length-prefixed frames) with the real codec into the events the
+/// handler would hand to the behaviour.
+pub fn verif_decode(config: &Config, bytes: &[u8]) -> Result<Vec<HandlerEvent>, String> {
+    let mut c = codec(config);
+    let mut buf = BytesMut::from(bytes);
+    let mut out = Vec::new();
+    loop {
+        match c.decode(&mut buf) {
+            Ok(Some(ev)) => out.push(ev),
+            Ok(None) => break,
+            Err(e) => return Err(e.to_string()),
+        }
+    }
+    if !buf.is_empty() {
+        return Err(format!("{} trailing bytes (incomplete frame)", buf.len()));
+    }
+    Ok(out)
+}
+
+/// The `HandlerEvent::PeerKind` event the handler emits once the protocol has been negotiated.
+pub fn verif_peer_kind_event(kind: PeerKind) -> HandlerEvent {
+    HandlerEvent::PeerKind(kind)
+}
+
+impl<D, F> Behaviour<D, F>
+where
+    D: DataTransform + Send + 'static,
+    F: TopicSubscriptionFilter + Send + 'static,
+{
+    /// Run one heartbeat (what `poll` does when the heartbeat timer fires).
+    pub fn verif_heartbeat(&mut self) {
+        self.heartbeat();
+    }
+
+    pub fn verif_config(&self) -> &Config {
+        &self.config
+    }
+
+    /// topic -> sorted mesh members
+    pub fn verif_mesh(&self) -> BTreeMap<String, Vec<PeerId>> {
+        self.mesh
+            .iter()
+            .map(|(t, p)| (t.as_str().to_string(), p.iter().copied().collect()))
+            .collect()
+    }
+
+    /// topic -> sorted fanout members
+    pub fn verif_fanout(&self) -> BTreeMap<String, Vec<PeerId>> {
+        self.fanout
+            .iter()
+            .map(|(t, p)| (t.as_str().to_string(), p.iter().copied().collect()))
+            .collect()
+    }
+
+    /// topics with a `fanout_last_pub` entry
+    pub fn verif_fanout_last_pub(&self) -> Vec<String> {
+        let mut v: Vec<String> = self
+            .fanout_last_pub
+            .keys()
+            .map(|t| t.as_str().to_string())
+            .collect();
+        v.sort();
+        v
+    }
+
+    pub fn verif_explicit_peers(&self) -> Vec<PeerId> {
+        let mut v: Vec<PeerId> = self.explicit_peers.iter().copied().collect();
+        v.sort();
+        v
+    }
+
+    pub fn verif_backoff_time(&self, topic: &TopicHash, peer: &PeerId) -> Option<Instant> {
+        self.backoffs.get_backoff_time(topic, peer)
+    }
+
+    pub fn verif_is_backoff_with_slack(&self, topic: &TopicHash, peer: &PeerId) -> bool {
+        self.backoffs.is_backoff_with_slack(topic, peer)
+    }
+
+    pub fn verif_heartbeat_ticks(&self) -> u64 {
+        self.heartbeat_ticks
+    }
+
+    pub fn verif_peer(&self, peer: &PeerId) -> Option<PeerView> {
+        self.connected_peers.get(peer).map(|p| PeerView {
+            kind: p.kind.as_static_ref(),
+            is_gossipsub: p.kind.is_gossipsub(),
+            is_floodsub: p.kind == PeerKind::Floodsub,
+            outbound: p.outbound,
+            connections: p.connections.len(),
+            topics: p.topics.iter().map(|t| t.as_str().to_string()).collect(),
+        })
+    }
+
+    pub fn verif_connected_peers(&self) -> Vec<PeerId> {
+        let mut v: Vec<PeerId> = self.connected_peers.keys().copied().collect();
+        v.sort();
+        v
+    }
+
+    /// Number of `ToSwarm` events waiting in the behaviour's own queue.
+    pub fn verif_pending_events(&self) -> usize {
+        self.events.len()
+    }
+
+    /// Pop everything queued for `peer` in the order the connection handler would and return the
+    /// wire frames (varint length prefix + protobuf) the handler would write.
+    pub fn verif_drain_wire(&mut self, peer: &PeerId) -> Vec<Vec<u8>> {
+        let mut c = codec(&self.config);
+        let Some(details) = self.connected_peers.get_mut(peer) else {
+            return Vec::new();
+        };
+        let waker = futures::task::noop_waker();
+        let mut cx = Context::from_waker(&waker);
+        let mut out = Vec::new();
+        while let Poll::Ready(rpc) = details.messages.poll_pop(&mut cx) {
+            let mut dst = BytesMut::new();
+            c.encode(rpc.into_protobuf(), &mut dst)
+                .expect("encoding an RpcOut never fails");
+            out.push(dst.to_vec());
+        }
+        out
+    }
+}
